@@ -44,3 +44,23 @@ Example C04_example :
   | Ok r => Nat.eqb (length (fst r)) 9 && Nat.eqb (length (snd r)) 9 && Qc_eqb (nthq 4 (fst r)) (qz 1) && Qc_eqb (nthq 6 (fst r)) (qz 2)
   | _ => false end = true.
 Proof. vm_compute. reflexivity. Qed.
+
+(** ---- the rfa() methods, REGENERATED from rfa.py as glue terms (Gen/RfaGlue.v) and run by the interpreter of Model/GlueFun.v with the
+     leaves of Model/GlueLeaves.v (IntervalArray accessors, shape functions, oversampling / extension helpers, adaptive windows mean
+     their models), are the write-loop model of Model/Rfa.v ---- *)
+From TW Require Import Model.GlueLeaves Gen.RfaGlue Proofs.GlueRfaFixedProofs.
+Open Scope string_scope.
+Theorem C04_glue_rfa_pc_function : forall sf x y n,
+  outcome_arr_pair (call_meth (rfa_callf (fun t => t) sf) (rfa_methf (fun t => t) x y n) no_apply no_pow rfa_methods
+     "PiecewiseConstantRFA.rfa" (rfa_attrs x y n 0 0 0 0) []) = Ok (rfa_pc x y n) /\
+  outcome_arr_pair (call_meth (rfa_callf (fun t => t) sf) (rfa_methf (fun t => t) x y n) no_apply no_pow rfa_methods
+     "FunctionRFA.rfa" (rfa_attrs x y n 0 0 0 0) []) = Ok (rfa_function sf x y n) /\
+  outcome_arr_pair (call_meth (rfa_callf (fun t => t) sf) (rfa_methf (fun t => t) x y n) no_apply no_pow rfa_methods
+     "AbstractRFA._initial_oversample" (rfa_attrs x y n 0 0 0 0) []) = Ok (oversample_linspace x n, oversample_pc y n) /\
+  outcome_arr (call_meth (rfa_callf (fun t => t) sf) (rfa_methf (fun t => t) x y n) no_apply no_pow rfa_methods
+     "AbstractRFA._initial_x_oversample" (rfa_attrs x y n 0 0 0 0) []) = Ok (oversample_linspace x n) /\
+  outcome_arr (call_meth (rfa_callf (fun t => t) sf) (rfa_methf (fun t => t) x y n) no_apply no_pow rfa_methods
+     "AbstractRFA._initial_y_oversample" (rfa_attrs x y n 0 0 0 0) []) = Ok (oversample_pc y n).
+Proof. exact glue_rfa_pc_function. Qed.
+Print Assumptions C04_glue_rfa_pc_function.
+Close Scope string_scope.
